@@ -44,6 +44,12 @@ def showResI (r : Res Int) : String :=
   | .ok v => s!"ok {v}"
   | .error f => Res.showFail f
 
+def showResI2 (r : Res Int) : String :=
+  match r with
+  | .ok v => s!"ok {v}"
+  | .error .mathErr => "err 6062"
+  | .error f => Res.showFail f
+
 def showResU (r : Res (Int × Int)) : String :=
   match r with
   | .ok _ => "ok"
@@ -66,6 +72,25 @@ def riskOp (op : String) (a : List Int) : Option String :=
   | "risk.enddelev", am :: lm :: ae :: le :: now :: n :: rest =>
     some (match parsePositions now n.toNat rest with
       | some (ps, []) => showResU (endDeleverage { aMaint := am, lMaint := lm, aEq := ae, lEq := le } ps)
+      | _ => "bad-args")
+  | "risk.start", ig :: now :: n :: rest =>
+    some (match parsePositions now n.toNat rest with
+      | some (ps, []) =>
+        (match startReceivership ps (ig != 0) with
+         | .ok c => s!"ok {c.aMaint} {c.lMaint} {c.aEq} {c.lEq}"
+         | .error .mathErr => "err 6062"
+         | .error f => Res.showFail f)
+      | _ => "bad-args")
+  | "risk.preliq", k :: now :: n :: rest =>
+    some (match parsePositions now n.toNat rest with
+      | some (ps, []) => showResI2 (preLiquidationFor ps (ps[k.toNat]?))
+      | _ => "bad-args")
+  | "risk.postliq", k :: pre :: now :: n :: rest =>
+    some (match parsePositions now n.toNat rest with
+      | some (ps, []) =>
+        (match ps[k.toNat]? with
+         | some lp => showResI2 (postLiquidation ps lp pre)
+         | none => "bad-args")
       | _ => "bad-args")
   | "risk.price", now :: age :: t :: bias :: mc :: rest =>
     some (match parseFeed now age rest with
